@@ -1,4 +1,5 @@
 #!/bin/bash
+if [ -n "$(git -C /repo status --porcelain)" ]; then echo "refusing: /repo has uncommitted changes (they would be reverted)"; exit 2; fi
 # usage: seed_confirm.sh <property> <scratch-worktree> <N> <seed-id>
 # Confirms a sub-agent's mutant in the scratch worktree (builds, suite passes, demo fails with / passes without),
 # stores it as /verif/seeded/<seed-id>/ and runs the property's quick check on /repo with the patch applied.
